@@ -17,7 +17,7 @@ REPO = os.environ.get("VERIF_REPO", "/repo")
 CACHE = os.environ.get("VERIF_CACHE", "/var/tmp/blocv-cache")
 LEAN = os.path.join(VERIF, "lean")
 GUARD = "BLOC_VERIF"
-SAN = "-fsanitize=address,undefined -fno-sanitize-recover=undefined -fno-omit-frame-pointer"
+SAN = "-fsanitize=address,undefined,float-cast-overflow -fno-sanitize-recover=undefined,float-cast-overflow -fno-omit-frame-pointer"
 NJOBS = str(os.cpu_count() or 8)
 
 
@@ -81,16 +81,19 @@ class BuildError(Exception):
 
 def impl_build(variant="asan"):
     """Build /repo's working tree (hooks on, sanitizers) and return the build dir."""
-    th = tree_hash()
     flags = {"asan": SAN, "tsan": "-fsanitize=thread -fno-omit-frame-pointer", "plain": ""}[variant]
+    th = tree_hash() + "-" + hashlib.sha256(flags.encode()).hexdigest()[:6]
     with Lock("impl-" + variant):
         d = os.path.join(CACHE, "impl-%s-%s" % (variant, th))
         if os.path.exists(os.path.join(d, ".done")):
+            os.utime(d)
             return d
-        # a new tree: drop stale builds of this variant
-        for e in os.listdir(CACHE):
-            if e.startswith("impl-%s-" % variant) and not e.endswith(".lock") and os.path.join(CACHE, e) != d:
-                shutil.rmtree(os.path.join(CACHE, e), ignore_errors=True)
+        # a new tree: keep the two most recently used builds of this variant, drop older ones
+        olds = [os.path.join(CACHE, e) for e in os.listdir(CACHE)
+                if e.startswith("impl-%s-" % variant) and not e.endswith(".lock") and os.path.join(CACHE, e) != d]
+        olds.sort(key=lambda x: os.path.getmtime(x), reverse=True)
+        for e in olds[2:]:
+            shutil.rmtree(e, ignore_errors=True)
         shutil.rmtree(d, ignore_errors=True)
         os.makedirs(d)
         t0 = time.time()
